@@ -30,7 +30,7 @@ from rcases import cplx_stmt, real_stmt, tac
 EXTRA_HEADER = "From TFV Require Import Shape.LineShapes2.\n"
 HEADER = ("From Coq Require Import Reals List ZArith.\nFrom Interval Require Import Tactic.\n"
           "From TFV Require Import Base.RBase Base.Tie Shape.LineShapes.\nImport ListNotations.\nOpen Scope R_scope.\n")
-UNF = ("rmax BWR_LS2 BWR_LS2_call ls_decay_amp polar Csum lmin hd Nat.min multi_doms multi_mix MultiBWR_from MultiBWR "
+UNF = ("rmax BWR_LS2 BWR_LS2_call ls_decay_amp ls_decay_amp_opt multi_doms_own MultiBWR_own multi_ref_mass polar Csum lmin hd Nat.min multi_doms multi_mix MultiBWR_from MultiBWR "
        "multi_bw_doms MultiBW_doc MultiBW_code BW bw_xy "
        "ls_barrier combine nth fold_right BWR2 Gamma2 Bprime_q2 bp_ratio bp polyval bprime_table "
        "Cscal Csqrt_real Cmul Cadd Cinv fst snd fold_left map Nat.mul Nat.add get_relative_p2")
@@ -95,17 +95,21 @@ class Recorder:
         return False
 
 
-def build(model, spin_k, mf, extra):
+def build(model, spin_k, mf, extra, dopts=None):
     import ampkit
     from tf_pwa.config_loader import ConfigLoader
     (JR, PR), fb = SPIN_SETS[spin_k % len(SPIN_SETS)]
     res = {"R_BC": dict({"pair": "R_BC", "J": JR, "P": PR, "model": model}, **extra)}
     fin = {"B": fb["B"], "C": fb["C"], "D": (0, -1)}
-    cfg = ampkit.three_body_config(2.2, mf, res, top=(1, -1), fin=fin, decay_opts={"R_BC": {"p_break": True}})
+    cfg = ampkit.three_body_config(2.2, mf, res, top=(1, -1), fin=fin, decay_opts={"R_BC": dict({"p_break": True}, **(dopts or {}))})
     config = ConfigLoader(cfg)
     amp = config.get_amplitude()
     part = [p for p in amp.decay_group.resonances if str(p) == "R_BC"][0]
     return amp, part, part.decay[0], fin
+
+
+def hbf_name(has_bf):
+    return "" if has_bf else ", has_barrier_factor=False"
 
 
 def set_g_ls(amp, rnd):
@@ -134,7 +138,10 @@ def bwr_ls2_cases(ctx, rnd, n):
     for k in range(n):
         mf = {"B": rnd.uniform(0.1, 0.3), "C": rnd.uniform(0.1, 0.3), "D": rnd.uniform(0.1, 0.2)}
         thr = mf["B"] + mf["C"]
-        amp, part, dec, fin = build("BWR_LS2", k, mf, {"mass": rnd.uniform(thr + 0.2, 1.6), "width": rnd.uniform(0.03, 0.3)})
+        # the documented decay option has_barrier_factor: False ("removes q^l B_l'") must not remove the resonance line shape
+        has_bf = (k % 2 == 0)
+        amp, part, dec, fin = build("BWR_LS2", k, mf, {"mass": rnd.uniform(thr + 0.2, 1.6), "width": rnd.uniform(0.03, 0.3)},
+                                    None if has_bf else {"has_barrier_factor": False})
         # parameters through the variable manager
         m0 = rnd.uniform(thr + 0.2, 1.6); g0 = rnd.uniform(0.03, 0.3)
         amp.set_params({"R_BC_mass": m0, "R_BC_width": g0})
@@ -145,7 +152,7 @@ def bwr_ls2_cases(ctx, rnd, n):
         below = (k % 3 == 2)
         m = rnd.uniform(max(0.05, thr - 0.25), thr - 0.01) if below else rnd.uniform(thr + 0.05, 2.0)
         tag = "below" if below else "above"
-        ctx.count("BWR_LS2:n_ls=%d:%s" % (len(ls), tag))
+        ctx.count("BWR_LS2:n_ls=%d:%s%s" % (len(ls), tag, hbf_name(has_bf)))
         base = {"m": m, "m0": m0v, "g0": g0v, "m1": mf["B"], "m2": mf["C"], "ls": ls, "below_threshold": below, "spins": str(fin)}
         # decay level first (the way an amplitude evaluates the model)
         outs, gls, q2d, q02d, _ = decay_level(part, dec, m, mf)
@@ -159,8 +166,8 @@ def bwr_ls2_cases(ctx, rnd, n):
             cases.append(("ls2_%d_%d" % (k, i), cplx_stmt(expr, v, rtol=BWR2_RTOL), TAC,
                           {"function": "Particle(model=BWR_LS2).get_ls_amp", "args": dict(base, coupling=i, q2=q2d, q02=q02d), "impl": str(v)}))
             # decay level: g_ls_i * R_i on numbers
-            cases.append(("ls2d_%d_%d" % (k, i), cplx_stmt("ls_decay_amp %s %s" % (Cq(gls[i]), Cq(v)), outs[i], rtol=1e-11), TAC,
-                          {"function": "ParticleDecayLS.get_ls_amp(BWR_LS2)", "args": dict(base, coupling=i, g_ls=str(gls[i]), R_i=str(v)), "impl": str(outs[i])}))
+            cases.append(("ls2d_%d_%d" % (k, i), cplx_stmt("ls_decay_amp_opt %s %s %s" % ("true" if has_bf else "false", Cq(gls[i]), Cq(v)), outs[i], rtol=1e-11), TAC,
+                          {"function": "ParticleDecayLS.get_ls_amp(BWR_LS2%s)" % hbf_name(has_bf), "args": dict(base, coupling=i, g_ls=str(gls[i]), R_i=str(v), has_barrier_factor=has_bf), "impl": str(outs[i])}))
         # __call__(m): q2, q02 recomputed by the particle, l = 0
         v = [c1(x) for x in part(T(m))]
         q2c = f1(grp2(T(m), T(mf["B"]), T(mf["C"]))); q02c = f1(grp2(T(m0v), T(mf["B"]), T(mf["C"])))
@@ -185,7 +192,8 @@ def multibwr_cases(ctx, rnd, n, model="MultiBWR"):
         if not no_mass:
             qmass = rnd.uniform(thr + 0.1, 1.8)
             extra["mass"] = qmass
-        amp, part, dec, fin = build(model, k // 3 + k, mf, extra)
+        has_bf = (k % 3 != 1)
+        amp, part, dec, fin = build(model, k // 3 + k, mf, extra, None if has_bf else {"has_barrier_factor": False})
         lsl = dec.get_ls_list()
         ls = [int(l) for l, _ in lsl]
         # parameters through the variable manager (all of them, including the fixed coeff_0_0 in every other case)
@@ -205,7 +213,10 @@ def multibwr_cases(ctx, rnd, n, model="MultiBWR"):
         set_g_ls(amp, rnd)
         m0s = [f1(x) for x in part.all_mass()]; g0s = [f1(x) for x in part.all_width()]
         m = rnd.uniform(thr + 0.05, 2.0)
-        ctx.count("%s:n_ls=%d:n_res=%d%s" % (model, len(ls), nres, ":no_mass" if no_mass else ""))
+        if k % 3 == 2:
+            m = m0s[-1]      # the last member at its own mass: i/(m0 Gamma0) (every member is a BWR normalised at ITS mass)
+            ctx.count("%s:evaluated_at_last_member_mass" % model)
+        ctx.count("%s:n_ls=%d:n_res=%d%s%s" % (model, len(ls), nres, ":no_mass" if no_mass else "", hbf_name(has_bf)))
         base = {"m": m, "mass_list": m0s, "width_list": g0s, "mass": qmass, "m1": mf["B"], "m2": mf["C"], "ls": ls, "coeff_polar": pol, "spins": str(fin)}
         lmin = min(ls)
         res_s = "[%s]" % "; ".join("(%s, %s)" % (Rq(a), Rq(b)) for a, b in zip(m0s, g0s))
@@ -226,7 +237,9 @@ def multibwr_cases(ctx, rnd, n, model="MultiBWR"):
             dec_calls = R.calls
         finally:
             del part.get_barrier_factor
-        qm = m if no_mass else qmass
+        # the decay's reference momentum q0 is taken at the FIRST member's mass (get_mass() = all_mass()[0]): it does not depend on
+        # an unrelated `mass:` entry nor - without one - on the masses of the other events of the batch
+        qm = m0s[0]
         for nm, val, mm in (("q2", q2d, m), ("q02", q02d, qm)):
             cases.append(("mb%s_%d" % (nm, k), real_stmt("get_relative_p2 %s %s %s" % (Rq(mm), Rq(mf["B"]), Rq(mf["C"])), val, atol=1e-13), TAC,
                           {"function": "ParticleDecayLS.get_ls_amp(%s):|%s|2" % (model, "q" if nm == "q2" else "q0"), "args": dict(base), "impl": str(val)}))
@@ -238,7 +251,7 @@ def multibwr_cases(ctx, rnd, n, model="MultiBWR"):
                       {"function": fn + ".get_ls_amp: one BWR2 per sub-resonance, one barrier factor per coupling", "args": dict(base), "impl": str((len(dec_calls), len(bf_rec)))}))
         if ok_rec:
             for j, cl in enumerate(dec_calls):
-                expr = "nth %d (multi_doms %s %s %s (lmin %s) %s %s) (0, 0)" % (j, Rq(m), Rq(q2d), Rq(q02d), nat_list(ls), Rq(D), res_s)
+                expr = "nth %d (multi_doms_own %s %s %s %s (lmin %s) %s %s) (0, 0)" % (j, Rq(m), Rq(q2d), Rq(mf["B"]), Rq(mf["C"]), nat_list(ls), Rq(D), res_s)
                 cases.append(("mbDd_%d_%d" % (k, j), cplx_stmt(expr, cl["out"], rtol=f32), TAC,
                               {"function": fn + " via decay: BWR2 of sub-resonance", "args": dict(base, sub=j, passed=dict((a, b) for a, b in cl.items() if a != "out")), "impl": str(cl["out"])}))
             for i, b in enumerate(bf_rec[0]):
@@ -249,9 +262,9 @@ def multibwr_cases(ctx, rnd, n, model="MultiBWR"):
                 doms_s = "[%s]" % "; ".join(Cq(cl["out"]) for cl in dec_calls)
                 cs_s = "[%s]" % "; ".join(Cq(c) for c in coeff[i])
                 scale = abs(gls[i]) * abs(bf_rec[0][i]) * sum(abs(c) * abs(cl["out"]) for c, cl in zip(coeff[i], dec_calls))
-                expr = "ls_decay_amp %s (MultiBWR_from %s %s %s)" % (Cq(gls[i]), Rq(bf_rec[0][i]), cs_s, doms_s)
+                expr = "ls_decay_amp_opt %s %s (MultiBWR_from %s %s %s)" % ("true" if has_bf else "false", Cq(gls[i]), Rq(bf_rec[0][i]), cs_s, doms_s)
                 cases.append(("mbD_%d_%d" % (k, i), cplx_stmt(expr, o, rtol=0, atol=1e-11 * scale + 1e-300), TAC,
-                              {"function": "ParticleDecayLS.get_ls_amp(%s)" % model, "args": dict(base, coupling=i, g_ls=str(gls[i])), "impl": str(o)}))
+                              {"function": "ParticleDecayLS.get_ls_amp(%s%s)" % (model, hbf_name(has_bf)), "args": dict(base, coupling=i, g_ls=str(gls[i])), "impl": str(o)}))
 
         # ---- direct, float64 tensors
         with Recorder() as R:
@@ -268,7 +281,7 @@ def multibwr_cases(ctx, rnd, n, model="MultiBWR"):
                       {"function": fn + ".coeff()", "args": dict(base), "impl": str(coeff)}))
         if len(calls) == nres:
             for j, cl in enumerate(calls):
-                expr = "nth %d (multi_doms %s %s %s (lmin %s) %s %s) (0, 0)" % (j, Rq(m), Rq(q2d), Rq(q02d), nat_list(ls), Rq(D), res_s)
+                expr = "nth %d (multi_doms_own %s %s %s %s (lmin %s) %s %s) (0, 0)" % (j, Rq(m), Rq(q2d), Rq(mf["B"]), Rq(mf["C"]), nat_list(ls), Rq(D), res_s)
                 cases.append(("mbd_%d_%d" % (k, j), cplx_stmt(expr, cl["out"], rtol=BWR2_RTOL), TAC,
                               {"function": fn + ".get_ls_amp: BWR2 of sub-resonance", "args": dict(base, sub=j, passed=dict((a, b) for a, b in cl.items() if a != "out")), "impl": str(cl["out"])}))
         else:
@@ -287,7 +300,7 @@ def multibwr_cases(ctx, rnd, n, model="MultiBWR"):
             # end to end (only small goals): parameters -> value
             if nres <= 2 and lmin <= 2 and ls[i] <= 2:
                 co_s = "[%s]" % "; ".join("[%s]" % "; ".join("polar %s %s" % (Rq(r), Rq(p)) for r, p in row) for row in pol)
-                expr = "%s %s %s %s %s %s %s %s %d" % ("MultiBWR" if model == "MultiBWR" else "MultiBW_code", Rq(m), Rq(q2d), Rq(q02d), nat_list(ls), Rq(D), res_s, co_s, i)
+                expr = "MultiBWR_own %s %s %s %s %s %s %s %s %s %d" % (Rq(m), Rq(q2d), Rq(q02d), Rq(mf["B"]), Rq(mf["C"]), nat_list(ls), Rq(D), res_s, co_s, i)
                 scale = abs(bfs[i]) * sum(abs(c) * abs(cl["out"]) for c, cl in zip(coeff[i], calls)) if len(calls) == nres else abs(v)
                 cases.append(("mbf_%d_%d" % (k, i), cplx_stmt(expr, v, rtol=0, atol=BWR2_RTOL * scale + 1e-300), TAC,
                               {"function": fn + ".get_ls_amp (end to end)", "args": dict(base, coupling=i, q2=q2d, q02=q02d), "impl": str(v)}))
